@@ -1112,6 +1112,17 @@ RunResult simulate(const Scenario &sc) {
 		}
 		res.spawn_hash = mix(h, (uint64_t)K->exit_status);
 	}
+	{
+		// final file system, for the calibration self-test and for reading replays
+		std::string fsl = "FS:";
+		for (auto &kv : K->paths) {
+			bool initial = false;
+			for (auto &f : sc.files) if (f.first == kv.first) initial = true;
+			if (!initial) fsl += " " + kv.first;
+		}
+		K->logf("%s", fsl.c_str());
+		K->logf("STATUS: %d", K->exit_status);
+	}
 	res.log = K->log;
 	res.log_hash = hash_str(K->log);
 	return res;
